@@ -16,7 +16,7 @@ as the quantity name (if any), as up to three units of that dimensionality and a
 exponent vectors in -3..3 over up to four base units. `units for X` must list exactly the non-alias units of X's dimensionality \
 (plus the base unit's long name when X is a base unit to the first power), each once, under its own category; every `factorize X` \
 entry must multiply out to X's dimensionality with no duplicate entries (run only when the dimensionality's complexity score is \
-<= 6: the search is exponential above that); all spellings of one dimensionality must give identical lists. Non-trivial = distinct \
+<= 10: costlier searches are left to C04); all spellings of one dimensionality must give identical lists. Non-trivial = distinct \
 dimensionality with >= 2 base units or an exponent of magnitude >= 2.";
 
 #[derive(Clone, Debug, Serialize, Deserialize, PartialEq, Eq, Hash, PartialOrd, Ord)]
@@ -32,6 +32,10 @@ pub struct Env {
     /// the category each name is defined in, read from the definitions file itself (a base unit's
     /// long name belongs where the base unit is defined)
     pub file_category: BTreeMap<String, BTreeSet<String>>,
+    /// names the definitions file defines as nothing but another name (`deka- deca`, `metre meter`):
+    /// read from the file, not from what the loader recorded about them
+    pub file_alias: BTreeSet<String>,
+    pub file_names: BTreeSet<String>,
 }
 
 pub fn mk_env(known: BTreeSet<String>) -> Env {
@@ -47,10 +51,24 @@ pub fn mk_env(known: BTreeSet<String>) -> Env {
         by_dims.entry(rinkx::dims_of(v)).or_default().push(n.clone());
     }
     let mut file_category: BTreeMap<String, BTreeSet<String>> = BTreeMap::new();
+    let mut file_alias: BTreeSet<String> = BTreeSet::new();
+    let mut file_names: BTreeSet<String> = BTreeSet::new();
     {
         let mut parsed = vec![];
         let _ = crate::props::c08::capture_stdout(|| parsed = rink_core::loader::gnu_units::parse_str(rink_core::DEFAULT_FILE.unwrap_or("")).defs);
         for e in &parsed {
+            match &*e.def {
+                rink_core::ast::Def::Unit { expr } | rink_core::ast::Def::Prefix { expr, is_long: true } => {
+                    // a later definition of the same name replaces the earlier one
+                    file_names.insert(e.name.clone());
+                    if let Expr::Unit { .. } = expr.0 {
+                        file_alias.insert(e.name.clone());
+                    } else {
+                        file_alias.remove(&e.name);
+                    }
+                }
+                _ => {}
+            }
             if let Some(c) = &e.category {
                 match &*e.def {
                     rink_core::ast::Def::Unit { .. } | rink_core::ast::Def::Substance { .. } => {
@@ -63,11 +81,9 @@ pub fn mk_env(known: BTreeSet<String>) -> Env {
                         }
                     }
                     rink_core::ast::Def::Prefix { is_long: true, .. } => {
-                        // the loader deliberately keeps categories for units only ("for now, only
-                        // allow units to have categories"): a long prefix listed as a unit may be
-                        // uncategorised or under the category it is defined in
+                        // a long prefix is usable, and listed, as a unit: it belongs to the
+                        // category it is defined in like any other
                         file_category.entry(e.name.clone()).or_default().insert(c.clone());
-                        file_category.entry(e.name.clone()).or_default().insert(String::new());
                     }
                     _ => {}
                 }
@@ -80,6 +96,8 @@ pub fn mk_env(known: BTreeSet<String>) -> Env {
         quantity_dims,
         by_dims,
         file_category,
+        file_alias,
+        file_names,
     }
 }
 
@@ -109,7 +127,8 @@ fn expected_units(env: &Env, d: &Dims) -> BTreeSet<String> {
     let mut set = BTreeSet::new();
     if let Some(names) = env.by_dims.get(d) {
         for n in names {
-            if let Some(Expr::Unit { .. }) = r.definitions.get(n) {
+            let alias = if env.file_names.contains(n) { env.file_alias.contains(n) } else { matches!(r.definitions.get(n), Some(Expr::Unit { .. })) };
+            if alias {
                 continue; // a bare alias
             }
             set.insert(n.clone());
@@ -210,8 +229,8 @@ pub fn check(env: &Env, c: &Case, st: &mut Stats) -> CaseResult {
             }
         }
         // ---- factorize
-        if score(&d) > 6 {
-            st.excluded("factorize: complexity score above 6 (exponential search, C04's finding F-11)");
+        if score(&d) > crate::oracle::cost::MAX_FACTORIZE_SCORE {
+            st.excluded("factorize: complexity score above 10 (each such search takes on the order of a second)");
             continue;
         }
         let q = format!("factorize {}", sp);
@@ -273,7 +292,7 @@ pub fn run(cx: &Cx) -> Report {
     rep.assumptions = vec![
         "the expected list is a filter over the registry's public maps (units, definitions, categories, category_names)".into(),
         "the `of` part of a `units for` reply carries the operand's value and is not compared across spellings; the lists are".into(),
-        "factorize is exercised only for dimensionalities of complexity score <= 6".into(),
+        "factorize is exercised only for dimensionalities of complexity score <= 10 (C04 runs the costlier ones)".into(),
     ];
     let known = cx.known.clone();
     crate::regress::run(cx, &mut rep, &replay);
